@@ -371,8 +371,6 @@ Qed.
 Definition msg_node (name : list Z) (num : Z) (fs : pmsg) : anode :=
   mk_anode K_MESSAGE (encode_elem (VMsg fs)) 0 false LSingular (TMsg name) num.
 
-Definition is_field_req (s : pstep) : bool := match s with PField _ => true | _ => false end.
-
 Theorem getmany_fields_kids S name fs reqs nd :
   wf_fld S LSingular (TMsg name) (VMsg fs) = true -> plen (encode_elem (VMsg fs)) < 2 ^ 63 ->
   nd = root_node name (encode_msg fs) \/ (exists num, nd = msg_node name num fs) ->
@@ -687,8 +685,6 @@ Proof.
     unfold map_child. cbn [kid_step fst]. destruct k; cbn [key_step step_eqb]; [apply Z.eqb_refl|apply bytes_eqb_refl].
 Qed.
 
-Definition is_key_req (s : pstep) : bool := match s with PStrKey _ | PIntKey _ => true | _ => false end.
-
 Theorem getmany_gets_kids S kk t num kvs reqs :
   (kk =? 9) || kind_is_int kk = true -> 1 <= num <= MAX_FIELD_NUMBER ->
   wf_fld S (LMap kk) t (VMap kvs) = true -> plen (wenc (wfld num (VMap kvs))) < 2 ^ 63 ->
@@ -722,4 +718,72 @@ Proof.
   { pose proof (wenc_len (map (erec num) (map entry_of (kx :: kvs')))) as H. rewrite !map_length in H. exact H. }
   destruct (fuel_split _ _ Hfu) as [f Ef]. rewrite Ef.
   apply (gets_loop_fill S kk t (kx :: kvs') [] reqs _ 0 (plen reqs) f num Hkk Hn Hall). cbn [app]. exact Hlen.
+Qed.
+
+(* ------------------------------------------------------------------ GetMany = map of single lookups *)
+Lemma step_eq_refl a : step_eq a a = true.
+Proof. destruct a; cbn [step_eq]; try apply Z.eqb_refl; apply bytes_eqb_refl. Qed.
+
+Lemma nodupb_step_NoDup reqs : nodupb step_eq reqs = true -> NoDup reqs.
+Proof.
+  induction reqs as [|x l IH]; intros H; [constructor|]. cbn [nodupb] in H. apply andb_true_iff in H as [H1 H2].
+  constructor; [|apply IH; exact H2]. intros Hin. apply negb_true_iff in H1.
+  assert (existsb (step_eq x) l = true) by (apply existsb_exists; exists x; split; [exact Hin|apply step_eq_refl]). congruence.
+Qed.
+
+Lemma many_is_lookups S lbl t num v kids reqs :
+  Forall (fun s => find_kid s kids = child_of_lres s (plookup S lbl t num v [s])) reqs ->
+  many_of_kids kids reqs = map (lookup_out S lbl t num v) reqs.
+Proof.
+  intros H. unfold many_of_kids. apply map_ext_in. intros s Hs. rewrite Forall_forall in H. rewrite (H s Hs).
+  unfold lookup_out, child_of_lres. destruct (plookup S lbl t num v [s]); reflexivity.
+Qed.
+
+Lemma reqs_okb_facts kind reqs : reqs_okb kind reqs = true ->
+  NoDup reqs /\ Forall (fun s => kind s = true) reqs /\ exists s r, reqs = s :: r /\ kind s = true.
+Proof.
+  unfold reqs_okb. intros H. apply andb_true_iff in H as [H Hnd]. apply andb_true_iff in H as [Hne Hall].
+  split; [apply nodupb_step_NoDup; exact Hnd|]. apply forallb_Forall in Hall. split; [exact Hall|].
+  destruct reqs as [|s r]; [discriminate|]. exists s, r. split; [reflexivity|]. inversion Hall; assumption.
+Qed.
+
+Theorem getmany_fields S name fs reqs nd num0 :
+  wf_fld S LSingular (TMsg name) (VMsg fs) = true -> plen (encode_elem (VMsg fs)) < 2 ^ 63 ->
+  nd = root_node name (encode_msg fs) \/ (exists num, nd = msg_node name num fs) ->
+  reqs_okb is_field_req reqs = true ->
+  a_getmany all_fixes S nd reqs = MOk (map (lookup_out S LSingular (TMsg name) num0 (VMsg fs)) reqs).
+Proof.
+  intros Hwf Hlen Hnd Hr. destruct (reqs_okb_facts _ _ Hr) as [Hdup [Hall [s [r [Er Hs]]]]].
+  rewrite (getmany_fields_kids S name fs reqs nd Hwf Hlen Hnd Hdup).
+  - f_equal. apply many_is_lookups. eapply Forall_impl; [|exact Hall]. intros a Ha. destruct a; try discriminate Ha.
+    apply children_lookup_msg. exact Hwf.
+  - destruct s; try discriminate Hs. eauto.
+Qed.
+
+Theorem getmany_indexes S p t num q vs reqs :
+  p = type_numeric t -> 1 <= num <= MAX_FIELD_NUMBER ->
+  wf_fld S (LRepeated p) t (VList q vs) = true -> plen (wenc (wfld num (VList q vs))) < 2 ^ 63 ->
+  reqs_okb is_index_req reqs = true ->
+  a_getmany all_fixes S (list_node p t num (plen vs) (VList q vs)) reqs =
+  MOk (map (lookup_out S (LRepeated p) t num (VList q vs)) reqs).
+Proof.
+  intros Hp Hn Hwf Hlen Hr. destruct (reqs_okb_facts _ _ Hr) as [Hdup [Hall [s [r [Er Hs]]]]].
+  rewrite (getmany_indexes_kids S p t num q vs reqs Hp Hn Hwf Hlen Hdup).
+  - f_equal. apply many_is_lookups. eapply Forall_impl; [|exact Hall]. intros a Ha. destruct a; try discriminate Ha.
+    apply children_lookup_list.
+  - destruct s; try discriminate Hs. eauto.
+Qed.
+
+Theorem getmany_gets S kk t num kvs reqs :
+  (kk =? 9) || kind_is_int kk = true -> 1 <= num <= MAX_FIELD_NUMBER ->
+  wf_fld S (LMap kk) t (VMap kvs) = true -> plen (wenc (wfld num (VMap kvs))) < 2 ^ 63 ->
+  reqs_okb is_key_req reqs = true ->
+  a_getmany all_fixes S (map_node kk t num (plen kvs) (VMap kvs)) reqs =
+  MOk (map (lookup_out S (LMap kk) t num (VMap kvs)) reqs).
+Proof.
+  intros Hkk Hn Hwf Hlen Hr. destruct (reqs_okb_facts _ _ Hr) as [Hdup [Hall [s [r [Er Hs]]]]].
+  rewrite (getmany_gets_kids S kk t num kvs reqs Hkk Hn Hwf Hlen Hdup).
+  - f_equal. apply many_is_lookups. eapply Forall_impl; [|exact Hall]. intros a Ha.
+    apply (children_lookup_map S kk t num kvs a Hwf); destruct a; try discriminate Ha; [exact Ha|exact Ha|exact I|exact I].
+  - exists s, r. split; [exact Er|exact Hs].
 Qed.
